@@ -64,6 +64,13 @@ def main() -> int:
         j["work"] = str(batch)
         info[j["id"]] = (label, {label})
         jobs.append(j)
+    inter = [(l, d) for l, d in docs.interplay_docs() if not any(x in l for x in ("path_default", "reserved_body", "named_Union"))]  # (those do not import: C01's findings)
+    for k, (label, d) in enumerate(inter[:: (7 if quick else 1)]):
+        le = k % 2 == 0
+        j = run.job(d, want=["manifest"], keep=True, cfg={"literal_enums": le}, plan={"fn": "c11", "args": {"seed": seed()}})
+        j["work"] = str(batch)
+        info[j["id"]] = (label, {"interplay", label.split(":")[1].rsplit("_", 1)[0], "le" if le else "enum"})
+        jobs.append(j)
     for i in range(16 if quick else 400):
         d, feats = docs.random_doc(("C11", seed(), i))
         le = i % 3 == 2
@@ -73,6 +80,8 @@ def main() -> int:
         jobs.append(j)
     rs = run.map(jobs, timeout=400)
     pkgs, owner = [], {}
+    shadow_pkgs: set = set()
+    param_local_modules: set = set()
     for j, res in zip(jobs, rs):
         label, feats = info[j["id"]]
         if res.get("_error") or res.get("exc") or not res.get("accepted"):
@@ -84,6 +93,14 @@ def main() -> int:
                 broken_imports = True  # C01's concern (known cascade finding); decode fall-through in such a package is its consequence
         if broken_imports:
             ev.count("packages_with_import_defects(C01)")
+        from ..harness import class_shadows_template_import
+        shadowing = class_shadows_template_import(res.get("manifest") or {})
+        if shadowing:
+            ev.count("packages_with_a_class_named_like_a_template_import")
+            shadow_pkgs.add(Path(res["outdir"]).name)
+        for e_ in (res.get("manifest") or {}).get("endpoints") or []:
+            if {p_["python_name"] for loc_ in e_["params"].values() for p_ in loc_} & {"kwargs", "response", "headers", "cookies", "params"}:
+                param_local_modules.add(f"{Path(res['outdir']).name}/api/{e_['tag']}/{e_['module']}.py")
         for a, x in actions_results(res):
             if a["a"] == "import_all":
                 continue
@@ -95,7 +112,7 @@ def main() -> int:
                 ev.count("decoded_values_checked")
                 fl = a["x"].get("flags") or []
                 for tp in (x.get("type_problems") or []) if not broken_imports else []:
-                    vd.violation("annotation_mismatch:attribute" + (":" + one_flag(fl) if fl else ""), f"{a['cls']}: {tp}", w)
+                    vd.violation("annotation_mismatch:class_shadows_template_import" if shadowing else "annotation_mismatch:attribute" + (":" + one_flag(fl) if fl else ""), f"{a['cls']}: {tp}", w)
             elif a["a"] == "call":
                 for variant, vr in x.items():
                     if vr.get("missing") or not vr.get("requests"):
@@ -103,7 +120,7 @@ def main() -> int:
                     ev.count("parsed_responses_checked")
                     fl = (a["x"].get("response") or {}).get("flags") or []
                     for tp in (vr.get("type_problems") or []) if not broken_imports else []:
-                        vd.violation("annotation_mismatch:response" + (":" + one_flag(fl) if fl else ""), f"{a['module']}.{variant}: {tp}", w)
+                        vd.violation("annotation_mismatch:class_shadows_template_import" if shadowing else "annotation_mismatch:response" + (":" + one_flag(fl) if fl else ""), f"{a['module']}.{variant}: {tp}", w)
             elif a["a"] == "get_kwargs":
                 ev.count("admitted_values_encoded")
                 if x.get("exc"):
@@ -142,6 +159,13 @@ def main() -> int:
             except Exception:
                 pass
             stem = rel.rsplit("/", 1)[-1][:-3]
+            if rel in param_local_modules:
+                # C18's finding seen by the type checker: a parameter named like a local the endpoint template assigns (kwargs = _get_kwargs(...))
+                vd.violation("mypy:parameter_named_like_template_local", f"{label}: {rel}:{ln}: {msg} | {src_line}", {"doc": j["doc"] if j else None, "cfg": j.get("cfg") if j else None, "mypy": line})
+                continue
+            if pkg in shadow_pkgs:
+                vd.violation("mypy:class_shadows_template_import", f"{label}: {rel}:{ln}: {msg} | {src_line}", {"doc": j["doc"] if j else None, "cfg": j.get("cfg") if j else None, "mypy": line})
+                continue
             if "/models/" in rel and re.search(rf"^(return {re.escape(stem)}$|{re.escape(stem)} = cls\(|{re.escape(stem)}\.additional_properties)", src_line):
                 vd.violation("mypy:model_local_named_after_module_shadows_property", f"{label}: {rel}:{ln}: {msg} | {src_line}", {"doc": j["doc"] if j else None, "cfg": j.get("cfg") if j else None, "mypy": line})
                 continue
